@@ -34,6 +34,7 @@ class R:
         self.line = 0
         self.rng = rng
         self.layout = layout or {}
+        self.tags = {}
 
     def w(self, s):
         self.parts.append(s)
@@ -314,9 +315,22 @@ def emit_block(stmts, r, indent):
     out = []
     for s in stmts:
         r.w('    ' * indent)
+        if getattr(s, 'tag', None) is not None:
+            r.tags[s.tag] = r.line      # 0-based physical line on which the statement starts
         out.append(s.emit(r, indent))
         r.w('\n')
-    return '(block' + ''.join(' ' + x for x in out) + ')'
+    return '(block' + ''.join(' ' + x for x in out if x) + ')'
+
+
+class Raw(S):
+    """verbatim source lines (comments, multi-line literals) with a known s-expression ('' = no tree node)"""
+
+    def __init__(self, text, sx=''):
+        self.text, self.sx = text, sx
+
+    def emit(self, r, indent):
+        r.w(self.text)
+        return self.sx
 
 
 class ExprS(S):
@@ -513,6 +527,7 @@ class Program:
     def render(self, rng=None):
         r = R(rng)
         ex = emit_exec(self.inputs, self.body, self.catches, r, 0)
+        self.tags = r.tags
         return r.text(), '(prog () %s)' % ex
 
 
